@@ -305,6 +305,7 @@ def validate_traces(files, workdir, timeout=3000, chunk=50, parallel=4):
     """Run TLC with Trace.tla over all traces (in chunks of `chunk` traces, `parallel` TLC processes at a time);
     merge per-formula counts, violations and conformance."""
     from concurrent.futures import ThreadPoolExecutor
+    spec_snapshot()   # taken once, before the worker threads stage it
     chunks = [files[i:i + chunk] for i in range(0, len(files), chunk)] or [[]]
     jobs = [(c, os.path.join(workdir, "chunk%03d" % i), timeout) for i, c in enumerate(chunks)]
     t0 = time.time()
